@@ -152,7 +152,7 @@ Theorem C04_segments_list_the_items :
   /\ (forall k kk srcs ci aref l ss, seg_groups k kk srcs ci aref l = Ok ss <->
         Forall2 (fun y s => match (if k_gba k then aref y else None) with
                             | Some a => s = fq (or_ostr (aq (kc k)) (q (kc k))) a
-                            | None => ritem (mk_k (kc kk) (k_abs kk) true) srcs (ci false clause_subq_groupby) y = Ok s end) l ss)
+                            | None => ritem kk srcs (ci false clause_subq_groupby) y = Ok s end) l ss)
   /\ (forall k kk srcs ci aref l ss, seg_orders k kk srcs ci aref l = Ok ss <->
         Forall2 (fun yd s => exists a,
                    match aref (fst yd) with
